@@ -7,7 +7,8 @@ From TT Require Import Lib.Base Model.Result Spec.C04 Corr.C04 Proof.C04.
    TextTestResult / ExtendedToStreamDecorator results and over ExtendedToOriginalDecorator-wrapped foreign results
    of ANY capability record: unittest.TestResult, 2.6 / 2.7 / extended / Twisted-style objects), every failfast
    configuration outside known finding F18, and every history of calls - outcomes reported with a details dict or
-   the original way. *)
+   the original way - made one after the other, or made by several threads, each through its own
+   ThreadsafeForwardingResult over the same target and semaphore, under EVERY schedule. *)
 Theorem C04_holds : forall i : input, wf i -> finding_F18 i = false -> spec_okb i (model i) = true.
 Proof. exact model_meets_spec. Qed.
 Print Assumptions C04_holds.
@@ -36,7 +37,7 @@ Print Assumptions C04_F18_confined.
 (* verdict: wasSuccessful() after any calls = no error / failure / unexpected success since the last startTestRun *)
 Theorem C04_verdict : forall i pre, wf i -> finding_F18 i = false -> has_e2s i = false -> has_foreign i = false ->
   was_ok (fold_left do_op pre (init (stack i) (set_after i))) = want_ok pre.
-Proof. exact was_ok_after. Qed.
+Proof. exact (fun i pre W => was_ok_after i pre (proj1 W)). Qed.
 Print Assumptions C04_verdict.
 
 (* summaries: every TextTestResult in the stack, at every stopTestRun: test count, OK / FAILED (failures=n),
@@ -69,6 +70,25 @@ Theorem C04_stop_reaches : forall p n,
 Proof. exact (fun p n => conj (stop_at_reaches p n) (conj (stop_reaches_all n) (should_stop_any n))). Qed.
 Print Assumptions C04_stop_reaches.
 
+(* several ThreadsafeForwardingResults over one target, one thread each, any programs, any schedule: the
+   scheduler never deadlocks and every call of every thread takes effect exactly once, per thread in program order
+   (in particular a stop() made while a sibling holds the semaphore waits and then reaches the target) ... *)
+Theorem C04_conc_complete : forall ths sch,
+  exists h, merge ths (linear_order ths sch) = Some h /\ length h = length (concat ths).
+Proof.
+  exact (fun ths sch => match linear_order_complete ths sch with
+                        | ex_intro _ h H => ex_intro _ h (conj H (proj2 (merge_length _ _ _ H))) end).
+Qed.
+Print Assumptions C04_conc_complete.
+
+(* ... and what is observed is what the calls give when made one after the other in that order, to which
+   C04_verdict / C04_summary / C04_failfast / C04_stop_reaches apply *)
+Theorem C04_conc_model : forall i ths sch, conc i = Some (ths, sch) ->
+  exists h, merge ths (linear_order ths sch) = Some h
+            /\ model i = model_seq (with_hist i (hist i ++ h)) (linear_order ths sch).
+Proof. exact conc_model. Qed.
+Print Assumptions C04_conc_model.
+
 (* ExtendedToOriginalDecorator over a foreign result, every path of its outcome methods (the object has / lacks
    addUnexpectedSuccess, accepts / refuses details=, has a failfast attribute or the decorator keeps _failfast,
    acts on failfast itself or not, has stop() or the decorator keeps _shouldStop; details passed or not): the
@@ -92,10 +112,19 @@ Theorem C04_step : forall n o, lvs (do_op n o) = map2 (fun s l => leaf_do s l o)
 Proof. exact (fun n o => conj (do_op_ok n o) (frame_do_op n o)). Qed.
 Print Assumptions C04_step.
 
-(* run.py: sys.exit(not result.wasSuccessful()) *)
+(* run.py: sys.exit(not result.wasSuccessful()).  exit_status is what the operating system reports: the argument
+   of sys.exit modulo 256.  It is 0 exactly for a successful run; the argument is a truth value, so the truncation
+   loses nothing - whereas any status that grows with the number of problems is reported as 0 (success) whenever
+   that number is a multiple of 256. *)
 Theorem C04_exit : forall ok, exit_status ok = 0 <-> ok = true.
 Proof. exact exit_status_ok. Qed.
 Print Assumptions C04_exit.
+Theorem C04_exit_no_truncation : forall ok, exit_arg ok < 256 /\ exit_status ok = exit_arg ok.
+Proof. exact (fun ok => conj (exit_arg_small ok) (Nat.mod_small _ _ (exit_arg_small ok))). Qed.
+Print Assumptions C04_exit_no_truncation.
+Theorem C04_exit_counting_wraps : forall n, os_status (256 * n) = 0.
+Proof. exact counting_status_wraps. Qed.
+Print Assumptions C04_exit_counting_wraps.
 
 (* table obligation, re-stated against Gen/Resulttabs.v on every run: StreamFailFast reacts exactly to the
    status words ExtendedToStreamDecorator emits for addError / addFailure / addUnexpectedSuccess *)
@@ -114,7 +143,7 @@ Print Assumptions C04_obs_eqb.
 Example C04_example :
   let i := {| stack := AMulti [ATFR (ATR false true); AE2O (ATR false false)]; set_after := Some true;
               hist := [StartRun; StartTest 1; Outcome KSuccess true 1; StopTest 1; StartTest 2; Outcome KFailure false 2;
-                       StopTest 2; StopRun; StartRun; StopAt [0]] |} in
+                       StopTest 2; StopRun; StartRun; StopAt [0]]; conc := None |} in
   wf i /\ finding_F18 i = false
   /\ o_ok (model i) = [true; true; true; true; true; false; false; false; true; true]
   /\ o_stop (model i) = [false; false; false; false; false; true; true; true; false; true]
@@ -133,10 +162,23 @@ Example C04_example_foreign :
                  fc_acts := false; fc_stop := true; fc_uxs_counts := false; fc_resets := false |} in
   let i := {| stack := AMulti [AFor ext; AFor py26]; set_after := Some true;
               hist := [StartRun; StartTest 1; Outcome KXfail true 1; StopTest 1; StartTest 2;
-                       Outcome KUxsuccess true 2; StopTest 2; StartRun] |} in
+                       Outcome KUxsuccess true 2; StopTest 2; StartRun]; conc := None |} in
   wf i /\ finding_F18 i = false
   /\ o_leaf_stop (model i) = [[false; false]; [false; false]; [false; false]; [false; false]; [false; false];
                               [true; true]; [true; true]; [true; true]]
   /\ o_ok (model i) = [true; true; true; true; true; false; false; false]
+  /\ spec_okb i (model i) = true.
+Proof. vm_compute. repeat split. Qed.
+
+(* non-vacuity, threads: thread 0 reports a success through its adapter; while it holds the semaphore (parked at
+   its release) thread 1 calls stop() on its own adapter: the scheduler cannot run thread 1, thread 0 finishes,
+   then the stop() takes effect and the shared TextTestResult is stopped; an unstarted run's verdict stays OK *)
+Example C04_example_threads :
+  let i := {| stack := ATFR (ATR false true); set_after := None; hist := [StartRun];
+              conc := Some ([[Outcome KSuccess false 12]; [StopAt []; StopRun]], [0; 1; 1]) |} in
+  wf i /\ finding_F18 i = false
+  /\ o_order (model i) = [0; 1; 1]
+  /\ o_leaf_stop (model i) = [[false]; [false]; [true]; [true]]
+  /\ o_sums (model i) = [[{| s_ran := 1; s_failed := None; s_sections := [] |}]]
   /\ spec_okb i (model i) = true.
 Proof. vm_compute. repeat split. Qed.
